@@ -108,6 +108,7 @@ struct Ctx {
 		va_list ap; va_start(ap, fmt); vsnprintf(buf, sizeof buf, fmt, ap); va_end(ap);
 		if(!desc.empty()) desc += "; ";
 		desc += buf;
+		if(config().verbose) fprintf(stderr, "op: %s\n", buf);
 	}
 	void tag(const char *name) {
 		for(auto &s : tags) if(s == name) return;
@@ -239,11 +240,13 @@ inline void write_tape_file(const std::string &path, const uint32_t *p, size_t n
 inline bool read_tape_file(const std::string &path, std::vector<uint32_t> &out) {
 	FILE *f = fopen(path.c_str(), "r");
 	if(!f) return false;
-	char line[256];
-	while(fgets(line, sizeof line, f)) {
-		if(line[0] == '#' || line[0] == '\n') continue;
+	// lines may be arbitrarily long (comments carry sanitizer summaries)
+	char *line = nullptr; size_t cap = 0;
+	while(getline(&line, &cap, f) >= 0) {
+		if(line[0] == '#' || line[0] == '\n' || line[0] == 0) continue;
 		out.push_back((uint32_t)strtoul(line, nullptr, 10));
 	}
+	free(line);
 	fclose(f);
 	return true;
 }
